@@ -186,6 +186,23 @@ def rule_sanitised(c, rule, fn, expect_objects):
         k = const_eval(args[2], c.p.enums)
         objs[obj] = (n, call, src)
         c.check(k == G1, rule, "%s/read:%s/length" % (fn, obj), c.pos(g, n), "reader is given G1_SER_BYTES", "signature reader is called with length %s, expected %d" % (g.r(args[2]), G1))
+    # parse sites inside small helpers: a repo function whose every VALID return established
+    # E1_read_bytes(<its parameter>, <its byte parameter>, 48) == VALID
+    for n, call in g.calls():
+        cn = callee_name(call)
+        if cn in (None, "E1_read_bytes") or cn not in c.p.funcs or cn == fn:
+            continue
+        params = [p_["name"] for p_ in c.p.params(cn)]
+        args = [g.r(a_) for a_ in call["inner"][1:]]
+        if len(params) != len(args):
+            continue
+        for sf in c.p.accept_summary(cn, "VALID"):
+            m = re.match(r"^E1_read_bytes\((\w+), (\w+), 48\) == VALID$", sf)
+            if not m or m.group(1) not in params or m.group(2) not in params:
+                continue
+            obj, src = args[params.index(m.group(1))], args[params.index(m.group(2))]
+            if base_name(src) in srcs and obj not in objs:
+                objs[obj] = (n, call, src)
     if len(objs) < expect_objects:
         c.viol(rule, "%s/parsed-objects" % fn, c.p.pos(g.f), "expected %d E1 object(s) parsed from caller bytes with E1_read_bytes, found %d: the signature is not deserialised by the validating reader" % (expect_objects, len(objs)))
     sites, _ = accept_sites(c, g)
@@ -268,6 +285,7 @@ def rule_pairing_core(c, rule):
 def rule_C02(c):
     c.floor("C02.R1", 8)
     c.floor("C02.R4", 2)
+    c.floor("C02.R5", 3)
     s1 = rule_sanitised(c, "C02.R1", "bls_verifyPerDistinctMessage", 1)
     s2 = rule_sanitised(c, "C02.R1", "bls_verifyPerDistinctKey", 1)
     c.check(sorted(sum(s1.values(), [])) == sorted(sum(s2.values(), [])) and bool(s1), "C02.R1", "siblings/predicates", "bls_core.c",
@@ -291,6 +309,53 @@ def rule_C02(c):
         # reviewed exception: map_to_G1 result ignored here (checked in bls_verify)
         for n, call in g.calls("map_to_G1"):
             c.info("C02.R1", fn + "/map_to_G1-unchecked", c.pos(g, n), "map_to_G1's return value is ignored here while bls_verify checks it; accepted: the Go caller validated Size()==128 for every hasher and passes len(hash) (assumption A-Hasher)")
+    # R5: offset bookkeeping — inside every loop of the two grouping functions, a running offset (`x += …`) is
+    # advanced on every path through the loop body; a `continue` that skips it misaligns all later groups
+    for fn in ("bls_verifyPerDistinctMessage", "bls_verifyPerDistinctKey"):
+        g = c.cfg("C02.R5", fn)
+        if not g:
+            continue
+        nacc = 0
+        for h in [n for n in g.nodes if n.kind == "loophead"]:
+            brs = [s_ for s_ in h.succ if s_ is not None and s_.kind == "branch"]
+            latch = [n for n in g.nodes if n.kind == "stmt" and n.tag == "inc" and h in n.succ]
+            if not brs or not latch:
+                continue
+            body_entry = brs[0].succ[0]
+            accs = {}
+            for n in g.nodes:
+                if n.kind != "stmt" or n.tag == "inc" or n.expr is None:
+                    continue
+                if not (g.dominates(h, n) and h.id in g.reach_from(n)):
+                    continue
+                # innermost loop only
+                if loop_of(g, n) is not h:
+                    continue
+                for x in walk(n.expr):
+                    if x.get("kind") == "CompoundAssignOperator" and x["opcode"] == "+=":
+                        accs.setdefault(g.r(x["inner"][0]), []).append(n)
+            if not accs:
+                continue
+            try:
+                ps = paths(g, body_entry, set(latch))
+            except cast.Unsupported as e:
+                c.und("C02.R5", "%s/loop@%s" % (fn, h.line), c.pos(g, h), str(e))
+                continue
+            for var, nodes in accs.items():
+                nacc += 1
+                bad = None
+                for p_ in ps:
+                    if p_[-1] not in latch:
+                        continue
+                    # nested loops: a path that enters an inner loop head is summarised by passing the head
+                    if not any(n in p_ for n in nodes):
+                        inner = [n for n in nodes if loop_of(g, n) is not h]
+                        bad = "→".join(str(n.line) for n in p_ if n.line)
+                        break
+                c.check(bad is None, "C02.R5", "%s/offset:%s" % (fn, var), c.pos(g, h), "running offset `%s` advances on every path through the loop body" % var,
+                        "running offset `%s` is not advanced on the loop path through lines %s: every later group is read from the wrong position (hashes and keys no longer aligned)" % (var, bad))
+        if nacc == 0:
+            c.und("C02.R5", fn + "/offsets", c.p.pos(g.f), "offset bookkeeping idiom not recognised")
     # R4: infinity operands skipped; set_one when nothing was accumulated
     g = c.cfg("C02.R4", "Fp12_multi_pairing")
     if g:
